@@ -34,7 +34,13 @@ Refuting events (each with its own mechanism-level signature):
   self-consistency ``p1 = to_proto(ir)`` may raise; if it returns, ``from_proto(p1)`` must not raise
                   (``reload-raises:<Exc>@<site>|kinds``), ``to_proto`` of that must not raise
                   (``reserialize-raises:...``) and ``canon(p2) == canon(p1)``
-                  (``not-idempotent:<Message.field|class>|kinds``)
+                  (``not-idempotent:<Message.field|class>|kinds``).  Where the canonical forms agree, the output
+                  lists of all nodes are also compared RAW: the canonical form trims trailing unnamed node outputs
+                  (a documented normalisation of the serializer), but p1 is the serializer's own output and so is
+                  trimmed already - a list that shrinks or grows on the second trip means p1 does not serialize to
+                  itself (``not-idempotent:NodeProto.output|trailing unnamed outputs lost|added``).  The ``empty_run``
+                  mutation makes the deciding inputs frequent: nodes none of whose 2-4 outputs/inputs is named, lists
+                  of graph/function inputs, outputs, initializers, value infos, attributes all unnamed.
   file access     any file-system call while ``from_proto`` runs (first and second trip) or while
                   ``name/dtype/shape/size`` of a resulting tensor is read: ``sys.addaudithook`` (open,
                   mmap, listdir, scandir ...) plus counted wrappers on ``os.stat/lstat/readlink/access/
@@ -137,6 +143,9 @@ ASSUMPTIONS = [
     "a spec naming no operand of its node is report-only",
     "the C02 canonical form (vfpy.canon_proto: reflection over every field, documented normalisations only) defines "
     "'serializes to itself'; a change of order only in external_data / quantization lists is report-only",
+    "the serializer's own output p1 already carries the serializer's documented normalisations, so between p1 and p2 the raw output "
+    "list of every node must be identical (trailing unnamed outputs included); raw differences of domain spelling and of the set of "
+    "value-info names between p1 and p2 are report-only",
     "file access is what CPython audit events (open, mmap, listdir, scandir, ...) and wrappers on os.stat/lstat/"
     "readlink/access/statvfs can see in-process; calls below the Python level are only visible to the strace observer "
     "(thorough tier); os.getcwd is report-only; reading nbytes is report-only (the statement lists name, dtype, shape, size)",
